@@ -201,14 +201,39 @@ func equalAt(e, o V, m NumMode, path string) string {
 		}
 		if e.Unordered || o.Unordered {
 			ei, oi := sortedIdx(e), sortedIdx(o)
-			for n := range ei {
-				a, b := ei[n], oi[n]
-				if e.Keys[a] != o.Keys[b] {
-					return fmt.Sprintf("%s: key set differs: %q vs %q", path, e.Keys[a], o.Keys[b])
+			for n := 0; n < len(ei); {
+				// group of equal keys (normalisation may merge distinct map keys)
+				k := e.Keys[ei[n]]
+				end := n
+				for end < len(ei) && e.Keys[ei[end]] == k {
+					end++
 				}
-				if d := equalAt(e.A[a], o.A[b], m, fmt.Sprintf("%s.%q", path, e.Keys[a])); d != "" {
-					return d
+				for x := n; x < end; x++ {
+					if o.Keys[oi[x]] != k {
+						return fmt.Sprintf("%s: key set differs: %q vs %q", path, k, o.Keys[oi[x]])
+					}
 				}
+				used := make([]bool, end-n)
+				for x := n; x < end; x++ {
+					found, first := false, ""
+					for y := n; y < end; y++ {
+						if used[y-n] {
+							continue
+						}
+						d := equalAt(e.A[ei[x]], o.A[oi[y]], m, fmt.Sprintf("%s.%q", path, k))
+						if d == "" {
+							used[y-n], found = true, true
+							break
+						}
+						if first == "" {
+							first = d
+						}
+					}
+					if !found {
+						return first
+					}
+				}
+				n = end
 			}
 			return ""
 		}
